@@ -13,6 +13,7 @@ import (
 	proxyv1alpha1 "github.com/kubewharf/kubegateway/pkg/apis/proxy/v1alpha1"
 	"github.com/kubewharf/kubegateway/pkg/ratelimiter/limiter"
 	"github.com/kubewharf/kubegateway/pkg/ratelimiter/options"
+	"github.com/kubewharf/kubegateway/pkg/ratelimiter/store/k8s"
 	"github.com/kubewharf/kubegateway/pkg/ratelimiter/util"
 
 	"verifharness/bed"
@@ -82,7 +83,9 @@ type takeoverResult struct {
 	Harness     string
 	// AckedDuringLoad: operations acknowledged while the LIST was in flight
 	AckedDuringLoad int
-	TriedDuringLoad int
+	// WindowOutlivedList: the work started while the LIST was in flight could only finish after the LIST had returned
+	WindowOutlivedList bool
+	TriedDuringLoad    int
 }
 
 func clusterObject(name string) *proxyv1alpha1.UpstreamCluster {
@@ -150,11 +153,31 @@ func runTakeover(tc takeoverCase) (res takeoverResult) {
 		ret  *proxyv1alpha1.RateLimitCondition
 	}
 	var acks []ackedReport
+	var windowDone chan struct{}
+	var windowOps func()
 	eventDuringLoad := map[string]bool{}
 	reportedUpstream := map[string]bool{}
 	if len(tc.During) > 0 {
 		inj.listStale = tc.StaleList
 		inj.listWindow = func() {
+			// The work runs on its own goroutine (it IS other goroutines' work). Normally it finishes while the LIST is
+			// held; if something in the code under test makes it wait for the LIST itself (a lock held across the API
+			// call), the LIST is released after a grace period and the work finishes afterwards. The grace period selects
+			// the schedule only; the oracles compare with what the API holds at the end.
+			windowDone = make(chan struct{})
+			go func() {
+				defer close(windowDone)
+				windowOps()
+			}()
+			t := time.NewTimer(2 * time.Second)
+			defer t.Stop()
+			select {
+			case <-windowDone:
+			case <-t.C:
+				res.WindowOutlivedList = true
+			}
+		}
+		windowOps = func() {
 			for _, d := range tc.During {
 				kind, u := d[:strings.Index(d, ":")], d[strings.Index(d, ":")+1:]
 				var err error
@@ -173,6 +196,20 @@ func runTakeover(tc takeoverCase) (res takeoverResult) {
 						}
 						cond.Name = util.GenerateRateLimitConditionName(u, reporter)
 						ret, err = rl.UpdateRateLimitConditionStatus(u, cond)
+					case "lose": // the lease is lost: the elector fires OnStoppedLeading
+						el.Lose(tc.Shard, "server-2")
+					case "regain":
+						el.Gain(tc.Shard)
+					case "interim-save": // the interim holder of the shard (another server, its own client) acknowledges a new condition
+						csI, _ := newClient(a)
+						si, _ := k8s.VerifNewK8sCacheStore(csI, 0, tc.Shard, shardCount)
+						err = si.Save(u, newCondition(u, u+".GW-Interim", 900))
+					case "interim-delete": // … and deletes a persisted one
+						csI, _ := newClient(a)
+						si, _ := k8s.VerifNewK8sCacheStore(csI, 0, tc.Shard, shardCount)
+						if err = si.Load(); err == nil {
+							err = si.Delete(u, u+".10.0.0.1-443")
+						}
 					case "acquire":
 						_, err = rl.DoAcquire(u, &proxyv1alpha1.RateLimitAcquire{Spec: proxyv1alpha1.RateLimitAcquireSpec{Instance: reporter, RequestID: 1,
 							Requests: []proxyv1alpha1.RateLimitAcquireRequest{{FlowControl: "fc", Tokens: 1}}}})
@@ -221,6 +258,17 @@ func runTakeover(tc takeoverCase) (res takeoverResult) {
 	if !step("gains the shard (startLeading)", func() { el.Gain(tc.Shard) }) {
 		return res
 	}
+	if windowDone != nil {
+		t := time.NewTimer(30 * time.Second)
+		select {
+		case <-windowDone:
+		case <-t.C:
+			res.Harness = "the work started while the LIST was in flight did not finish within the 30s watchdog"
+			t.Stop()
+			return res
+		}
+		t.Stop()
+	}
 	// the periodic leader check starts a led shard that has no store; it runs until the injected faults are used up
 	pending := func() bool {
 		inj.mu.Lock()
@@ -249,10 +297,19 @@ func runTakeover(tc takeoverCase) (res takeoverResult) {
 	st := h.Store(tc.Shard)
 	res.Serving = st != nil
 	if st == nil {
-		if !pending() {
-			res.Harness = "the server never served the shard although the faults were used up"
+		if !pending() && el.IsLeader(tc.Shard) {
+			res.Harness = "the server never served the shard although it leads it and the faults were used up"
 		}
 		return res
+	}
+	if !el.IsLeader(tc.Shard) {
+		res.Findings = append(res.Findings, finding{Oracle: "serves-shard-it-does-not-lead", What: fmt.Sprintf("the server has a store for shard %d although it lost the shard while that store was loading", tc.Shard)})
+	}
+	lostWhileLoading := false
+	for _, d := range tc.During {
+		if strings.HasPrefix(d, "lose:") {
+			lostWhileLoading = true
+		}
 	}
 	// ---- oracle ----
 	snap := a.snapshot()
@@ -280,7 +337,7 @@ func runTakeover(tc takeoverCase) (res takeoverResult) {
 		isState := strings.HasSuffix(n, ".state")
 		// conditions of an upstream that was worked on while the LIST was in flight may legitimately have changed since
 		// they were persisted: only their presence is judged here, their content by the during-load oracles below
-		touched := false
+		touched := lostWhileLoading // (judged against what the API holds NOW, below: an interim holder has written meanwhile)
 		for _, d := range tc.During {
 			if d[strings.Index(d, ":")+1:] == p.Spec.UpstreamCluster {
 				touched = true
@@ -297,6 +354,30 @@ func runTakeover(tc takeoverCase) (res takeoverResult) {
 		case !isState && valOf(c) != valOf(p):
 			res.Findings = append(res.Findings, finding{Oracle: "load-value-differs", Name: n,
 				What: fmt.Sprintf("the server serves shard %d with %s=%s, persisted was %s", tc.Shard, n, valOf(c), valOf(p))})
+		}
+	}
+	if lostWhileLoading {
+		// the shard was lost and regained while the first load was in flight: what is served after the regain must be what
+		// the API holds now (the interim holder's acknowledged saves and deletes included), not what a LIST from before says
+		snapNow := a.snapshot()
+		for n, stNow := range snapNow {
+			if util.GetShardID(stNow.Upstream, shardCount) != tc.Shard {
+				continue
+			}
+			c, ok := held[n]
+			switch {
+			case !ok:
+				res.Findings = append(res.Findings, finding{Oracle: "serves-shard-without-persisted-condition", Name: n,
+					What: fmt.Sprintf("after losing and regaining shard %d during its load the server serves it without %s=%s, which the API holds (acknowledged by the interim holder)", tc.Shard, n, stNow.Val)})
+			case !strings.HasSuffix(n, ".state") && valOf(c) != stNow.Val:
+				res.Findings = append(res.Findings, finding{Oracle: "load-value-differs", Name: n, What: fmt.Sprintf("the server serves %s=%s, the API holds %s", n, valOf(c), stNow.Val)})
+			}
+		}
+		for n, c := range held {
+			if _, ok := snapNow[n]; !ok {
+				res.Findings = append(res.Findings, finding{Oracle: "serves-condition-the-api-does-not-hold", Name: n,
+					What: fmt.Sprintf("after losing and regaining shard %d during its load the server serves %s=%s, which the interim holder deleted (the store was loaded from a LIST taken before)", tc.Shard, n, valOf(c))})
+			}
 		}
 	}
 	if len(tc.During) > 0 {
@@ -398,6 +479,21 @@ func takeover(r *vkit.R) {
 				}
 			}
 		}
+		// plan D: the shard is lost WHILE its store is loading (OnStoppedLeading finds nothing to stop); an interim holder
+		// acknowledges a save and a delete; the shard may be regained before the first load has finished
+		{
+			u := own[0]
+			for _, mode := range []string{"write-through", "periodic"} {
+				for _, during := range [][]string{{"lose:"}, {"lose:", "interim-save:" + u, "interim-delete:" + u}, {"lose:", "interim-save:" + u, "interim-delete:" + u, "regain:"}, {"lose:", "regain:"}} {
+					for _, stale := range []bool{false, true} {
+						tc := takeoverCase{Mode: mode, Shard: shard, Persisted: persisted, Clusters: clusters, During: during, StaleList: stale}
+						jobs = append(jobs, tc)
+						tc.FailLists = 1
+						jobs = append(jobs, tc)
+					}
+				}
+			}
+		}
 		// plan B: every position of the fault-free write-through take-over (positions are deterministic there: no goroutine)
 		base := takeoverCase{Mode: "write-through", Shard: shard, Persisted: persisted, Clusters: clusters}
 		free := runTakeover(base)
@@ -435,6 +531,15 @@ func takeover(r *vkit.R) {
 			}
 			plan = "during-load=" + strings.Join(ks, "+") + "/list-answer-computed-" + map[bool]string{true: "before", false: "after"}[tc.StaleList]
 			mu.Lock()
+			if strings.HasPrefix(tc.During[0], "lose:") {
+				byPlan["(runs with the shard lost while its store was loading)"]++
+				if strings.HasPrefix(tc.During[len(tc.During)-1], "regain:") {
+					byPlan["(… and regained before the load had finished)"]++
+					if res.Serving {
+						byPlan["(… and serving after the regain)"]++
+					}
+				}
+			}
 			byPlan["(runs with work while the LIST is in flight)"]++
 			byPlan["(operations acknowledged while the LIST was in flight)"] += res.AckedDuringLoad
 			byPlan["(operations performed while the LIST was in flight)"] += res.TriedDuringLoad
@@ -468,6 +573,12 @@ func takeover(r *vkit.R) {
 			if len(tc.During) > 0 {
 				// which operations and which LIST order: in the text and the witness (one cause: the store is visible before it is loaded)
 				sig = "C19/limiter-takeover/" + f.Oracle + "/work-while-list-in-flight"
+				if strings.HasPrefix(tc.During[0], "lose:") {
+					sig = "C19/limiter-takeover/" + f.Oracle + "/leadership-lost-while-loading"
+					if strings.HasPrefix(tc.During[len(tc.During)-1], "regain:") {
+						sig += "-and-regained"
+					}
+				}
 			}
 			if seen[sig] {
 				continue
@@ -488,6 +599,8 @@ func takeover(r *vkit.R) {
 		}
 	}
 	r.Require(n >= r.N(40, 400), "too few single faults at the positions of a take-over")
+	r.Require(byPlan["(runs with the shard lost while its store was loading)"] >= r.N(150, 1500) && byPlan["(… and serving after the regain)"] >= r.N(60, 600),
+		"losing (and regaining) a shard while its store is loading hardly exercised")
 	r.Require(byPlan["(runs with work while the LIST is in flight)"] >= r.N(150, 1500) && byPlan["(operations performed while the LIST was in flight)"] >= r.N(200, 2000),
 		"work while the LIST of a take-over is in flight hardly exercised") // (a server that refuses such work until it has loaded acknowledges none of it: that is fine)
 }
